@@ -287,6 +287,20 @@ def tbudgetOp (args : List String) : String :=
       | none => "none"
   | _, _, _ => "bad-op"
 
+/-- `rlim`: `limits=` the values of the WithReadMaxBytes options in declaration order (`nested=1`:
+    the first on its own, the rest in a group inside a group), a message of `size=` bytes -/
+def rlimOp (args : List String) : String :=
+  match kv args "limits", (kv args "size").bind String.toNat?, kv args "nested" with
+  | some ls, some size, some nested =>
+    match (ls.splitOn ",").mapM String.toNat? with
+    | some (l :: rest) =>
+      let opts : List SOpt :=
+        if nested == "1" then [.group [.readMax l, .group (rest.map SOpt.readMax)]]
+        else (l :: rest).map SOpt.readMax
+      if withinLimit (SOpt.applyList opts 0) size then "accepted" else "rejected: invalid_argument"
+    | _ => "bad-op"
+  | _, _, _ => "bad-op"
+
 def poolTraceOp (toks : List String) : String :=
   let evs : Option (List PoolEv) := toks.mapM fun t =>
     if t.startsWith "g" then ((t.drop 1).toString.toNat?).map PoolEv.get
@@ -401,6 +415,7 @@ def step (line : String) : String :=
   | "cwatch" :: args => cwatchOp args
   | "cwrite" :: args => cwriteOp args
   | "tbudget" :: args => tbudgetOp args
+  | "rlim" :: args => rlimOp args
   | "gen" :: args => genOp args
   | "icpt" :: args => icptOp args
   | "recover" :: args => recoverOp args
